@@ -950,8 +950,11 @@ PROVED below: `handshake_completes_partial` - the restriction to
 for the REAL glue model (`Tls.sendT` / `Tls.receiveT` with their retry loops, `HandleLastError` gating, `pendingSend`
 rule - not a simplification), any `Cfg` with at least two handshake rounds (in particular the current code and all
 three legacy variants: the repairs concern the payload phase, see the `legacy_*_violates` theorems above).
-Still resting on the exhaustive implementation matrix of `./check C18` only: asynchronous endpoints, unlimited and
-limited timeouts, other call orders, short / refused writes, and the agreement of `Hs.engine` with OpenSSL. -/
+(Superseded in part by the section "handshake completion beyond the polling schedule" at the end of this file and
+`Props/C18Hs.lean`: every fair schedule of zero-timeout calls, per-call timeouts `T ≥ 0`, one side blocking with an
+unlimited timeout, an asynchronous endpoint with a polling peer are theorems now.)  Still resting on the exhaustive
+implementation matrix of `./check C18` only: async/async pairings, an asynchronous endpoint with a blocking peer, both
+sides blocking, concurrency finer than one call, short / refused writes, and the agreement of `Hs.engine` with OpenSSL. -/
 namespace SockModel.Hs
 open SockModel.Net SockModel.Tls
 
